@@ -313,3 +313,52 @@ theorem writer_retains (ops : List Op) (id m : Nat) (hmono : MonoSeqs 0 ops) :
   · have := hdropped e he; omega
   · exact he
 end Rxn.Wal
+
+namespace Rxn.Wal
+open Rxn Rxn.Sst
+
+theorem log_apply_cur (l : Log) (op : Op) : (l.apply op).cur = l.cur.apply op := by
+  cases op <;> rfl
+
+theorem log_run_cur (l : Log) (ops : List Op) : (l.run ops).cur = l.cur.run ops := by
+  induction ops generalizing l with
+  | nil => rfl
+  | cons op ops ih => simp only [Log.run, Writer.run, ih, log_apply_cur]
+
+theorem log_apply_sealed (l : Log) (op : Op) : ∃ more, (l.apply op).sealed = l.sealed ++ more := by
+  cases op
+  case rotate => exact ⟨[l.cur], rfl⟩
+  all_goals exact ⟨[], by simp [Log.apply]⟩
+
+/-- whatever happens later, the sealed writers stay as they were sealed (new ones are only appended) -/
+theorem log_run_sealed (l : Log) (ops : List Op) : ∃ more, (l.run ops).sealed = l.sealed ++ more := by
+  induction ops generalizing l with
+  | nil => exact ⟨[], by simp [Log.run]⟩
+  | cons op ops ih =>
+    obtain ⟨m1, h1⟩ := log_apply_sealed l op
+    obtain ⟨m2, h2⟩ := ih (l.apply op)
+    exact ⟨m1 ++ m2, by simp only [Log.run, h2, h1, List.append_assoc]⟩
+
+theorem log_run_append (l : Log) (a b : List Op) : l.run (a ++ b) = (l.run a).run b := by
+  induction a generalizing l with
+  | nil => rfl
+  | cons op a ih => simp only [List.cons_append, Log.run, ih]
+
+/-- the writer sealed by the `Rotate` after `ops₁` is the writer those operations built, and it is still exactly
+that — same position, same content — after any later history `ops₂` of its successors -/
+theorem sealed_writer_immutable (id m : Nat) (ops₁ ops₂ : List Op) :
+    let l := (Log.new id m).run (ops₁ ++ Op.rotate :: ops₂)
+    let k := ((Log.new id m).run ops₁).sealed.length
+    l.sealed[k]? = some ((Writer.new id m).run ops₁) := by
+  intro l k
+  have hl : l = (((Log.new id m).run ops₁).apply Op.rotate).run ops₂ := by
+    show (Log.new id m).run (ops₁ ++ Op.rotate :: ops₂) = _
+    rw [log_run_append]; rfl
+  obtain ⟨more, hmore⟩ := log_run_sealed (((Log.new id m).run ops₁).apply Op.rotate) ops₂
+  have hcur : ((Log.new id m).run ops₁).cur = (Writer.new id m).run ops₁ := log_run_cur _ _
+  rw [hl, hmore]
+  show (((Log.new id m).run ops₁).sealed ++ [((Log.new id m).run ops₁).cur] ++ more)[k]? = _
+  rw [List.append_assoc, List.getElem?_append_right (Nat.le_refl _)]
+  simp [k, hcur]
+
+end Rxn.Wal
